@@ -652,6 +652,8 @@ def run(ctx):
     import reuse
     from common import Parts
     parts = Parts(res)
+    import pycode_types  # translator validation: generated class methods vs the real methods (harness/pycode_types.py)
+    parts.run("translated classes vs the real methods", pycode_types.check, res, random.Random(ctx["seed"] * 7919 + 78), ctx["tier"], ["types"])
     parts.run("wire types: pack / unpack / size / field sequences", run_cases, cases, res)
     parts.run("instance re-use", reuse.datatype_reuse, res, random.Random(ctx["seed"] * 31 + 1919), 1500 if ctx["tier"] == "quick" else 60000)
     parts.run("operation sequences", reuse.datatype_sequences, res, random.Random(ctx["seed"] * 37 + 1920), 1500 if ctx["tier"] == "quick" else 40000)
